@@ -72,6 +72,10 @@ class Ntag21xModel(object):
             pwd = self.mem[4 * self.cfgpage + 8:4 * self.cfgpage + 12]
             if data[1:5] == pwd:
                 return bytearray(self.mem[4 * self.cfgpage + 12:4 * self.cfgpage + 14])
+            # refused: the tag stays mute, or answers a 4-bit NAK that drivers deliver as one octet
+            # (0h, 1h, 4h, 5h - the form Type2Tag.read() handles too)
+            if nondet_bool():
+                return bytearray([(0, 1, 4, 5)[nondet_int(0, 3)]])
             raise nfc.tag.tt2.Type2TagCommandError(nfc.tag.TIMEOUT_ERROR)
         return nondet_bytearray(0, 16)
 
